@@ -19,6 +19,7 @@ type extStats struct {
 	NotReq, FileReqFalse                                          int64
 	SpentUS                                                       int64
 	SlowCalls, LeakCalls                                          int64
+	EngineRuns, EngineWithPkgs                                    int64
 	MaxUS                                                         int64
 	seen                                                          map[[16]byte]uint8 // bit0 seen, bit1 non-trivial
 	Distinct, Nontrivial                                          int64
@@ -125,6 +126,12 @@ func (p *parent) record(r *Result) {
 	}
 	if r.Leaked > 0 {
 		s.LeakCalls++
+	}
+	if r.Engine {
+		s.EngineRuns++
+		if r.EngPkgs > 0 {
+			s.EngineWithPkgs++
+		}
 	}
 	switch r.Out {
 	case "ok":
@@ -670,6 +677,7 @@ func runParent(cfg *Config, workers int, budget time.Duration, maxCases int64, o
 	}
 	// output
 	per := map[string]any{}
+	var engTot, engPk int64
 	var tot struct{ calls, ok, okp, errs, panics, timeouts, deaths, distinct, nontrivial, notreq int64 }
 	for i, e := range w.Exts {
 		s := p.st[i]
@@ -683,6 +691,8 @@ func runParent(cfg *Config, workers int, budget time.Duration, maxCases int64, o
 		tot.distinct += s.Distinct
 		tot.nontrivial += s.Nontrivial
 		tot.notreq += s.NotReq
+		engTot += s.EngineRuns
+		engPk += s.EngineWithPkgs
 		var paths []string
 		for _, a := range e.Accepted {
 			paths = append(paths, a.Path)
@@ -690,17 +700,17 @@ func runParent(cfg *Config, workers int, budget time.Duration, maxCases int64, o
 		per[e.Name] = map[string]any{
 			"calls": s.Calls, "ok": s.OK, "ok_with_packages": s.OKWithPkgs, "errors": s.Errors, "panics": s.Panics, "timeouts": s.Timeouts,
 			"worker_deaths": s.WorkerDeaths, "distinct_inputs": s.Distinct, "nontrivial": s.Nontrivial,
-			"path_not_required": s.NotReq, "file_required_false_at_call": s.FileReqFalse,
+			"path_not_required": s.NotReq, "file_required_false_at_call": s.FileReqFalse, "engine_runs": s.EngineRuns, "engine_runs_with_packages": s.EngineWithPkgs,
 			"seeds":             map[string]int{"own_fixtures": len(e.Own), "c03_generated": len(e.C03), "synthetic": len(w.Synth), "cross_pool": len(w.OwnAll) - len(e.Own)},
 			"seed_source_calls": s.src, "unmutated_seed_cases": len(e.Det),
-			"systematic_cases": map[string]int{"seeds": e.SysStat.Seeds, "structured_seeds": e.SysStat.Structured, "value_edits": e.SysStat.Value, "line_edits": e.SysStat.Line, "run": int(minI64(s.nextK, int64(len(e.Det)+len(e.Sys)))) - len(e.Det)}, "accepted_paths": paths, "paths_used": s.paths, "distinct_seed_files_used": len(s.seeds), "cpu_s": round3(float64(s.SpentUS) / 1e6),
+			"systematic_cases": map[string]int{"seeds": e.SysStat.Seeds, "structured_seeds": e.SysStat.Structured, "value_edits": e.SysStat.Value, "line_edits": e.SysStat.Line, "zip_seeds": e.SysStat.Zips, "archive_edits": e.SysStat.Zip, "run": int(minI64(s.nextK, int64(len(e.Det)+len(e.Sys)))) - len(e.Det)}, "accepted_paths": paths, "paths_used": s.paths, "distinct_seed_files_used": len(s.seeds), "cpu_s": round3(float64(s.SpentUS) / 1e6),
 			"slow_calls_over_1s": s.SlowCalls, "calls_leaving_goroutines_behind": s.LeakCalls, "max_call_ms": s.MaxUS / 1000, "package_dir": e.PkgDir, "requirements": e.Reqs,
 			"os_release_varied": e.OSRel, "materialised_on_disk": e.DirectFS,
 		}
 	}
 	sysTot := map[string]any{}
 	{
-		var ex, seeds, st, val, line, det int
+		var ex, seeds, st, val, line, det, zips, zed int
 		complete := true
 		for i, e := range w.Exts {
 			if len(e.Sys) > 0 {
@@ -710,6 +720,8 @@ func runParent(cfg *Config, workers int, budget time.Duration, maxCases int64, o
 			st += e.SysStat.Structured
 			val += e.SysStat.Value
 			line += e.SysStat.Line
+			zips += e.SysStat.Zips
+			zed += e.SysStat.Zip
 			det += len(e.Det)
 			if (p.only == nil || p.only[e.Name]) && p.st[i].nextK < p.mandatory(i) {
 				complete = false
@@ -717,8 +729,8 @@ func runParent(cfg *Config, workers int, budget time.Duration, maxCases int64, o
 		}
 		sysTot = map[string]any{"what": "deterministic prefix run completely before the time-budgeted random phase (fixed iteration count, no deadline except the per-call one): " +
 			"unmutated seeds, then per text extractor the small seeds (<= 8 KiB, <= 6 per extractor) x {every string leaf of a JSON/TOML/YAML seed x separator-aware rewrites (<= 400 per seed), " +
-			"every line x case / truncation / continuation / cut edits (<= 300 per seed)}",
-			"extractors_with_systematic_cases": ex, "seeds": seeds, "structured_seeds": st, "value_edit_cases": val, "line_edit_cases": line,
+			"every line x case / truncation / continuation / cut edits (<= 300 per seed)}; zip seeds (<= 64 KiB): every member x {emptied, deleted, duplicated, halved, renamed, empty twin in front}, every line of every text member x {deleted, value cut, key cut, separator dropped, lower-cased, end of member after / inside it} (<= 400 per seed), re-packed as a valid archive",
+			"extractors_with_systematic_cases": ex, "seeds": seeds, "structured_seeds": st, "value_edit_cases": val, "line_edit_cases": line, "zip_seeds": zips, "archive_edit_cases": zed,
 			"unmutated_seed_cases": det, "handed_out_completely": complete, "handout_finished_after_s": round3(p.sysHandoutS)}
 	}
 	ops := map[string]int64{}
@@ -738,6 +750,10 @@ func runParent(cfg *Config, workers int, budget time.Duration, maxCases int64, o
 		"memlimit_mib":       cfg.MemMiB,
 		"budget_s":           budget.Seconds(),
 		"systematic_pass":    sysTot,
+		"result_validation": map[string]any{"what": "after every Extract call that returned, the result is consumed the way filesystem.runExtractor does (nil *Package elements are a finding; " +
+			"Extractor / Locations of every package are written, the inventory is appended); every case of the deterministic prefix and every 16th random case of the extractors " +
+			"that work on an in-memory file system is additionally run through filesystem.Run (real walk + runExtractor) inside the same recover / watchdog window",
+			"calls_through_filesystem_Run": engTot, "of_which_reported_packages": engPk},
 		"extractors_fuzzed":  len(w.Exts),
 		"skipped_extractors": w.Skipped,
 		"per_extractor":      per,
